@@ -97,11 +97,17 @@ Shape(s, L) ==
     [] s = "paren" -> E(<<"(", fa, "(", ce, ")", "+", cf, ")">>, {ce, cf}, {fa}, FALSE)
     [] s = "arith" -> E(<<ce, "*", fa, "(", cf, ")">>, {ce, cf}, {fa}, FALSE)
 
+\* (for every list the expression stands in - select items, sort keys, grouping keys, joins, assignments, rows, cells -
+\* there is a position where it is NOT the last element: what a traversal hands out for "every element" must not be
+\* the last one every time)
 QueryPos == {"select-item", "select-first", "select-last", "select-aliased", "distinct-on", "aggregate-arg", "where", "where-and-right",
-             "join-on", "join-on-second", "group-by", "group-by-second", "having", "order-by", "order-by-second"}
+             "join-on", "join-on-second", "group-by", "group-by-second", "having", "order-by", "order-by-second",
+             "join-on-first", "group-by-first", "order-by-first"}
 DmlPos == {"insert-value", "insert-second-row", "insert-returning", "upsert-set", "upsert-where", "update-set", "update-second-set",
            "update-where", "update-returning", "delete-where", "delete-returning", "merge-on", "merge-when-condition",
-           "merge-update-set", "merge-insert-value"}
+           "merge-update-set", "merge-insert-value",
+           "insert-first-row", "insert-first-cell", "upsert-first-set", "duplicate-key-set", "duplicate-key-first-set", "update-first-set",
+           "merge-update-first-set"}
 SlotFrame(pos, L, e) ==
   LET ta == Tab(L, "a")  tb == Tab(L, "b")  tc == Tab(L, "c")  ca == Col(L, "a")  cb == Col(L, "b")  cc == Col(L, "c")  xa == Ali(L, "a")
       x == e.toks
@@ -139,6 +145,18 @@ SlotFrame(pos, L, e) ==
     [] pos = "update-returning" -> Fr(<<"UPDATE", ta, "SET", ca, "=", "1", "RETURNING">> \o x, {ta}, {ca}, {}, {})
     [] pos = "delete-where" -> Fr(<<"DELETE", "FROM", ta, "WHERE">> \o b, {ta}, {}, {}, {})
     [] pos = "delete-returning" -> Fr(<<"DELETE", "FROM", ta, "WHERE", ca, "=", "1", "RETURNING">> \o x, {ta}, {ca}, {}, {})
+    [] pos = "join-on-first" -> Fr(<<"SELECT", ca, "FROM", ta, "JOIN", tb, "ON">> \o b \o <<"JOIN", tc, "ON", cb, "=", "1">>, {ta, tb, tc}, {ca, cb}, {}, {})
+    [] pos = "group-by-first" -> Fr(<<"SELECT", ca, "FROM", ta, "GROUP", "BY">> \o x \o <<",", ca>>, {ta}, {ca}, {}, {})
+    [] pos = "order-by-first" -> Fr(<<"SELECT", ca, "FROM", ta, "ORDER", "BY">> \o x \o <<"DESC", ",", ca>>, {ta}, {ca}, {}, {})
+    [] pos = "insert-first-row" -> Fr(<<"INSERT", "INTO", ta, "(", ca, ")", "VALUES", "(">> \o x \o <<")", ",", "(", "1", ")">>, {ta}, {ca}, {}, {})
+    [] pos = "insert-first-cell" -> Fr(<<"INSERT", "INTO", ta, "(", ca, ",", cb, ")", "VALUES", "(">> \o x \o <<",", "1", ")">>, {ta}, {ca, cb}, {}, {})
+    [] pos = "upsert-first-set" -> Fr(<<"INSERT", "INTO", ta, "(", ca, ")", "VALUES", "(", "1", ")", "ON", "CONFLICT", "(", ca, ")", "DO", "UPDATE", "SET", cb, "=">> \o x \o <<",", cc, "=", "1">>,
+                                      {ta}, {ca, cb, cc}, {}, {})
+    [] pos = "duplicate-key-set" -> Fr(<<"INSERT", "INTO", ta, "(", ca, ")", "VALUES", "(", "1", ")", "ON", "DUPLICATE", "KEY", "UPDATE", cb, "=">> \o x, {ta}, {ca, cb}, {}, {})
+    [] pos = "duplicate-key-first-set" -> Fr(<<"INSERT", "INTO", ta, "(", ca, ")", "VALUES", "(", "1", ")", "ON", "DUPLICATE", "KEY", "UPDATE", cb, "=">> \o x \o <<",", cc, "=", "1">>,
+                                             {ta}, {ca, cb, cc}, {}, {})
+    [] pos = "update-first-set" -> Fr(<<"UPDATE", ta, "SET", ca, "=">> \o x \o <<",", cb, "=", "1">>, {ta}, {ca, cb}, {}, {})
+    [] pos = "merge-update-first-set" -> Fr(mergeHead \o mergeOn \o <<"WHEN", "MATCHED", "THEN", "UPDATE", "SET", cc, "=">> \o x \o <<",", cb, "=", "1">>, {ta, tb}, {ca, cb, cc}, {}, {})
     [] pos = "merge-on" -> Fr(mergeHead \o b \o <<"WHEN", "MATCHED", "THEN", "DELETE">>, {ta, tb}, {}, {}, {})
     [] pos = "merge-when-condition" -> Fr(mergeHead \o mergeOn \o <<"WHEN", "MATCHED", "AND">> \o b \o <<"THEN", "DELETE">>, {ta, tb}, {ca}, {}, {})
     [] pos = "merge-update-set" -> Fr(mergeHead \o mergeOn \o <<"WHEN", "MATCHED", "THEN", "UPDATE", "SET", cc, "=">> \o x, {ta, tb}, {ca, cc}, {}, {})
